@@ -1,8 +1,11 @@
 ------------------------- MODULE Trace_UdsLayoutResp -------------------------
 (* C02, code -> spec: batch oracle for response parses.
 
-   Batch.traces : recorded parses (UDSResponse.parse_dynamic(b) or
-                  <Class>.from_pdu(b)) that were NOT rejected: verdict class,
+   Batch.traces : recorded parses (UDSResponse.parse_dynamic(b),
+                  <Class>.from_pdu(b), or the object helpers.parse_pdu(b, request)
+                  / UDSClient.request hand out for the received bytes b -- returned
+                  or carried by the ResponseException; x.dyn = TRUE for these) that
+                  were NOT rejected: verdict class,
                   exposed fields, re-serialised bytes.  Verdict = "ok" or the
                   first clause of R1/R2/R3 broken.  x.valid marks byte strings
                   TLC generated from the layout: not accepting them as typed is
